@@ -82,7 +82,8 @@ def facts(ctx):
     tree = common.fn_body(b, r"\nfn\s+build_bmff_tree\s*<", "build_bmff_tree")
     for frag in ("*recursion_level += 1;", "if *recursion_level > MAX_BOX_DEPTH {", "*recursion_level -= 1;",
                  ".checked_add(s)", "s = end - current;", "BoxType::MdatBox == header.name", "BoxType::UuidBox =>",
-                 "extended_type == C2PA_UUID", "BoxType::MetaBox == header.name"):
+                 "extended_type == C2PA_UUID", "BoxType::MetaBox == header.name",
+                 "Err(Error::IoError(e)) if e.kind() == std::io::ErrorKind::UnexpectedEof =>", "Err(e) => return Err(e),"):
         if frag not in tree:
             problems.append(f"srcfacts: build_bmff_tree no longer contains `{frag}`")
     m = common.fact(r"// container box types\s*(BoxType::\w+(?:\s*\|\s*BoxType::\w+)*)\s*=>", tree, "container arm of build_bmff_tree")
